@@ -1,5 +1,6 @@
 import Driver.Util
 import ZixModel.Model.Path
+import ZixModel.Model.PathBuf
 import ZixModel.Spec.Cpp17Path
 namespace Driver.C10
 open Zix.Path
@@ -41,21 +42,21 @@ def step (_ : Unit) (ws : List String) : Unit × String :=
     | none => ((), "bad-op")
   | ["norm", h] =>
     match bytesOfHex h with
-    | some s => ((), s!"norm out={hexOfBytes (normalize s)}\nstd norm={elemsStr (Zix.PathSpec.normal s).elems}")
+    | some s => ((), s!"norm out={hexOfBytes (normalize s)} | alloc={Zix.PathBuf.normalAlloc s}\nstd norm={elemsStr (Zix.PathSpec.normal s).elems}")
     | none => ((), "bad-op")
   | ["join", a, b] =>
     match parseArg a, parseArg b with
-    | some a, some b => ((), s!"join out={hexOfBytes (join a b)}")
+    | some a, some b => ((), s!"join out={hexOfBytes (join a b)} | alloc={Zix.PathBuf.joinAlloc a b}")
     | _, _ => ((), "bad-op")
   | ["rel", p, b] =>
     match bytesOfHex p, bytesOfHex b with
     | some p, some b =>
       let sr := match Zix.PathSpec.relative p b with | some es => elemsStr es | none => "NULL"
-      ((), s!"rel out={optHex (relative p b)}\nstd rel={sr}")
+      ((), s!"rel out={optHex (relative p b)} | alloc={(Zix.PathBuf.relativeAlloc p b).getD 0}\nstd rel={sr}")
     | _, _ => ((), "bad-op")
   | ["pref", h] =>
     match bytesOfHex h with
-    | some s => ((), s!"pref out={hexOfBytes (preferred s)}")
+    | some s => ((), s!"pref out={hexOfBytes (preferred s)} | alloc={Zix.PathBuf.preferredAlloc s}")
     | none => ((), "bad-op")
   | ["nullq"] => ((), "nullq has=00000000 abs=0 isrel=1")
   | _ => ((), "bad-op")
